@@ -1,7 +1,7 @@
 (* The in-memory dictionary instance used by the correspondence check satisfies
    the dictionary hypotheses of the editor theorems (non-vacuity). *)
 From Coq Require Import NArith List Bool Arith Lia.
-From LC Require Import Base.Lib Model.Composition Model.Conversion Model.Editor Model.EdInst.
+From LC Require Import Base.Lib Gen.Editor_gen Model.Composition Model.Conversion Model.Editor Model.EdInst.
 Import ListNotations.
 Open Scope nat_scope.
 
@@ -33,17 +33,17 @@ Proof.
   destruct (key_compare k t k' t'); constructor; auto.
 Qed.
 
-Lemma md_ok_add d k t f : md_ok d -> length t <= length k -> md_ok (fst (do_add md_ops d k t f)).
+Lemma md_ok_add d k t f : md_ok d -> length t <= length k -> (f <= 100)%N -> md_ok (fst (do_add md_ops d k t f)).
 Proof.
-  intros [Hs Hu] Hlen. cbn [do_add md_ops]. unfold md_add. destruct t as [|c t]; [split; assumption|].
+  intros [Hs Hu] Hlen _. cbn [do_add md_ops]. unfold md_add. destruct t as [|c t]; [split; assumption|].
   destruct (existsb _ _); cbn [fst]; [split; assumption|].
   split; cbn [md_sys md_user]; [assumption|]. apply bt_insert_forall; [|assumption].
   cbn [entry_key]. destruct k; cbn [length] in Hlen; [lia | discriminate].
 Qed.
 
-Lemma md_ok_update d k t f u tm : md_ok d -> length t = length k -> k <> [] -> md_ok (do_update md_ops d k t f u tm).
+Lemma md_ok_update d k t f u tm : md_ok d -> length t = length k -> k <> [] -> (u <= MAX_USER_FREQ)%N -> md_ok (do_update md_ops d k t f u tm).
 Proof.
-  intros [Hs Hu] Hlen Hk. cbn [do_update md_ops]. unfold md_update. destruct t; [split; assumption|].
+  intros [Hs Hu] Hlen Hk _. cbn [do_update md_ops]. unfold md_update. destruct t; [split; assumption|].
   split; cbn [md_sys md_user]; [assumption|]. apply bt_insert_forall; assumption.
 Qed.
 
@@ -57,3 +57,70 @@ Qed.
 Example md_ok_example :
   md_ok (mkMD [([2560%N], [20007%N], 2004%N, 0%N); ([2560%N; 6275%N], [19976%N; 20007%N], 5%N, 0%N)] [] []).
 Proof. split; repeat constructor; discriminate. Qed.
+
+(* ---- the stronger well-formedness the totality theorem (C01) needs: no empty phrase, and
+   frequencies that fit the engine's 32-bit arithmetic with room to spare ---- *)
+Definition entry_fine (e : dentry) : Prop :=
+  let '(k, t, f, _) := e in k <> [] /\ t <> [] /\ (f < 4000000000)%N.
+Definition md_fine (d : memdict) : Prop := Forall entry_fine (md_sys d) /\ Forall entry_fine (md_user d).
+
+Lemma md_fine_ok d : md_fine d -> md_ok d.
+Proof.
+  intros [Hs Hu]. split; (eapply Forall_impl; [|eassumption]); intros [[[k t] f] tm] (H & _); exact H.
+Qed.
+
+Lemma md_fine_add d k t f : md_fine d -> length t <= length k -> (f <= 100)%N -> md_fine (fst (do_add md_ops d k t f)).
+Proof.
+  intros [Hs Hu] Hlen Hf. cbn [do_add md_ops]. unfold md_add. destruct t as [|c t]; [split; assumption|].
+  destruct (existsb _ _); cbn [fst]; [split; assumption|].
+  split; cbn [md_sys md_user]; [assumption|]. apply bt_insert_forall; [|assumption].
+  cbn [entry_fine]. repeat split; [destruct k; cbn [length] in Hlen; [lia | discriminate] | discriminate | lia].
+Qed.
+
+Lemma md_fine_update d k t f u tm : md_fine d -> length t = length k -> k <> [] -> (u <= MAX_USER_FREQ)%N ->
+  md_fine (do_update md_ops d k t f u tm).
+Proof.
+  intros [Hs Hu] Hlen Hk Hb. cbn [do_update md_ops]. unfold md_update. destruct t; [split; assumption|].
+  split; cbn [md_sys md_user]; [assumption|]. apply bt_insert_forall; [|assumption].
+  cbn [entry_fine]. repeat split; [assumption | discriminate | unfold MAX_USER_FREQ in Hb; lia].
+Qed.
+
+Lemma md_fine_remove d k t : md_fine d -> md_fine (do_remove md_ops d k t).
+Proof.
+  intros [Hs Hu]. cbn [do_remove md_ops]. unfold md_remove. split; cbn [md_sys md_user]; [assumption|].
+  unfold bt_remove. rewrite Forall_forall in *. intros x Hx. apply filter_In in Hx as [Hx _]. now apply Hu.
+Qed.
+
+Definition phrase_fine (p : phrase) : Prop := fst p <> [] /\ (snd p < 4000000000)%N.
+
+Lemma tb_lookup_fine entries g k : Forall entry_fine entries -> Forall phrase_fine (tb_lookup entries g k).
+Proof.
+  intros H. unfold tb_lookup. apply Forall_forall. intros p Hp. apply in_flat_map in Hp as ([[[k' t] f] tm] & Hin & Hp).
+  rewrite Forall_forall in H. specialize (H _ Hin). cbn [entry_fine] in H. destruct H as (_ & Ht & Hf).
+  destruct (text_eqb k k' && negb (in_grave g k t)); [|contradiction]. destruct Hp as [<-|[]]. split; assumption.
+Qed.
+
+Lemma merge_phrase_fine p : phrase_fine p -> forall acc, Forall phrase_fine acc -> Forall phrase_fine (merge_phrase acc p).
+Proof.
+  intros Hp. induction acc as [|q acc IH]; intros H; cbn [merge_phrase]; [constructor; [exact Hp | constructor]|].
+  inversion H as [|x l Hq Hacc]; subst. destruct (text_eqb (fst q) (fst p)).
+  - constructor; [destruct (N.ltb (snd q) (snd p)); assumption | assumption].
+  - constructor; [assumption | now apply IH].
+Qed.
+
+Lemma md_lookup_fine d f k : md_fine d -> Forall phrase_fine (do_lookup md_ops d f k).
+Proof.
+  intros [Hs Hu]. cbn [do_lookup md_ops]. unfold md_lookup.
+  pose proof (tb_lookup_fine (md_user d) (md_grave d) k Hu) as HU. pose proof (tb_lookup_fine (md_sys d) [] k Hs) as HS.
+  revert HS. generalize (tb_lookup (md_sys d) [] k). induction HU as [|p l Hp Hl IH]; intros acc HS; cbn [fold_left]; [exact HS|].
+  apply IH. now apply merge_phrase_fine.
+Qed.
+
+Lemma md_fine_text d f k p : md_fine d -> In p (do_lookup md_ops d f k) -> fst p <> [].
+Proof. intros H Hin. pose proof (md_lookup_fine d f k H) as F. rewrite Forall_forall in F. now destruct (F _ Hin). Qed.
+Lemma md_fine_freq d f k p : md_fine d -> In p (do_lookup md_ops d f k) -> (snd p < 4000000000)%N.
+Proof. intros H Hin. pose proof (md_lookup_fine d f k H) as F. rewrite Forall_forall in F. now destruct (F _ Hin). Qed.
+
+Example md_fine_example :
+  md_fine (mkMD [([2560%N], [20007%N], 2004%N, 0%N); ([2560%N; 6275%N], [19976%N; 20007%N], 5%N, 0%N)] [([2560%N], [20013%N], 7%N, 3%N)] []).
+Proof. split; repeat constructor; try discriminate; reflexivity. Qed.
